@@ -92,10 +92,12 @@ def machine() -> Dict[str, Any]:
     leaking = [n for n, d in other.items() if d["cached"] and d["reads"] & TABLES]
     if leaking:
         raise symnum.HarnessError(f"cached functions in __init__.py read the declaration tables: {leaking}")
-    every_writer_clears = {c: all(c in clears[w] for w in writers) for c in known}
+    if set(writers) != {"equate", "translate"}:
+        raise symnum.HarnessError(f"writers of the declaration tables changed: {writers}")
     return {"cached": cached, "writers": writers, "clears": clears,
             "path_cached": "_find_path" in cached, "plan_cached": "_plan_conversion" in cached,
-            "path_cleared": every_writer_clears["_find_path"], "plan_cleared": every_writer_clears["_plan_conversion"],
+            "path_cleared": {w: "_find_path" in clears[w] for w in writers},
+            "plan_cleared": {w: "_plan_conversion" in clears[w] for w in writers},
             "other_module_caches": sorted(n for n, d in other.items() if d["cached"])}
 
 
@@ -129,15 +131,19 @@ def search(mc: Dict[str, Any], N: int, L: int, timeout_ms: int) -> Dict[str, Any
         return z3.If(direct != 0, direct, expr)
 
     for t in range(L):
-        S.add(kind[t] >= 0, kind[t] <= 1, a[t] >= 0, a[t] < N, b[t] >= 0, b[t] < N, a[t] != b[t],
+        # kind 0: A.equals(r * B) via equate; kind 1: query; kind 2: conversions.translate(A, 7 * B)
+        S.add(kind[t] >= 0, kind[t] <= 2, a[t] >= 0, a[t] < N, b[t] >= 0, b[t] < N, a[t] != b[t],
               r[t] >= 1, r[t] <= 2)
         for (i, j) in pairs:
             sel = z3.And(a[t] == i, b[t] == j)
             rev = z3.And(a[t] == j, b[t] == i)
             decl = kind[t] == 0
-            # declarations write both directions
+            tran = kind[t] == 2
+            # declarations write both directions (a scale's edge is given the marker weight 5)
             S.add(w[t + 1][(i, j)] == z3.If(z3.And(decl, sel), r[t],
-                                           z3.If(z3.And(decl, rev), -r[t], w[t][(i, j)])))
+                                           z3.If(z3.And(decl, rev), -r[t],
+                                                 z3.If(z3.And(tran, sel), 5,
+                                                       z3.If(z3.And(tran, rev), -5, w[t][(i, j)])))))
             f = fresh(t, i, j)
             path = z3.If(pc[t][(i, j)] != NONE, pc[t][(i, j)], f) if mc["path_cached"] else f
             plan_hit = pl[t][(i, j)] != NONE if mc["plan_cached"] else z3.BoolVal(False)
@@ -148,14 +154,16 @@ def search(mc: Dict[str, Any], N: int, L: int, timeout_ms: int) -> Dict[str, Any
             pc_q = z3.If(plan_hit, pc[t][(i, j)], path) if mc["path_cached"] else z3.IntVal(NONE)
             pl_q = z3.If(plan_hit, pl[t][(i, j)], z3.If(path != EMPTY, path, z3.IntVal(NONE))) \
                 if mc["plan_cached"] else z3.IntVal(NONE)
-            pc_d = z3.IntVal(NONE) if mc["path_cleared"] else pc[t][(i, j)]
-            pl_d = z3.IntVal(NONE) if mc["plan_cleared"] else pl[t][(i, j)]
-            S.add(pc[t + 1][(i, j)] == z3.If(decl, pc_d, z3.If(q, pc_q, pc[t][(i, j)])))
-            S.add(pl[t + 1][(i, j)] == z3.If(decl, pl_d, z3.If(q, pl_q, pl[t][(i, j)])))
+            pc_d = z3.IntVal(NONE) if mc["path_cleared"]["equate"] else pc[t][(i, j)]
+            pl_d = z3.IntVal(NONE) if mc["plan_cleared"]["equate"] else pl[t][(i, j)]
+            pc_t = z3.IntVal(NONE) if mc["path_cleared"]["translate"] else pc[t][(i, j)]
+            pl_t = z3.IntVal(NONE) if mc["plan_cleared"]["translate"] else pl[t][(i, j)]
+            S.add(pc[t + 1][(i, j)] == z3.If(decl, pc_d, z3.If(tran, pc_t, z3.If(q, pc_q, pc[t][(i, j)]))))
+            S.add(pl[t + 1][(i, j)] == z3.If(decl, pl_d, z3.If(tran, pl_t, z3.If(q, pl_q, pl[t][(i, j)]))))
     # vacuity witness: some history ends with a successful query
     t0 = time.time()
     S.push()
-    S.add(kind[L - 1] == 1, impl[L - 1] != EMPTY, z3.Or(*[kind[t] == 0 for t in range(L - 1)]))
+    S.add(kind[L - 1] == 1, impl[L - 1] != EMPTY, z3.Or(*[kind[t] != 1 for t in range(L - 1)]))
     witness = str(S.check())
     S.pop()
     S.add(z3.Or(*[z3.And(kind[t] == 1, impl[t] != spec[t]) for t in range(L)]))
@@ -170,6 +178,8 @@ def search(mc: Dict[str, Any], N: int, L: int, timeout_ms: int) -> Dict[str, Any
         for t in range(bad + 1):
             if ev(kind[t]) == 0:
                 hist.append(("declare", ev(a[t]), ev(b[t]), ev(r[t]) + 1))
+            elif ev(kind[t]) == 2:
+                hist.append(("translate", ev(a[t]), ev(b[t]), 7))
             else:
                 hist.append(("query", ev(a[t]), ev(b[t])))
         out["history"] = hist
@@ -187,6 +197,8 @@ def run(history, tag):
     for op in history:
         if op[0] == "declare":
             us[op[1]].equals(op[3] * us[op[2]])
+        elif op[0] == "translate":
+            conversions.translate(us[op[1]], op[3] * us[op[2]])
         else:
             try:
                 out = ("ok", float((1 * us[op[1]]).in_unit(us[op[2]]).magnitude))
@@ -207,7 +219,7 @@ def fresh_process(hist, tag):
     p = subprocess.run([sys.executable, "-c", code], capture_output=True, text=True)
     return json.loads(p.stdout.strip().splitlines()[-1])
 with_history = fresh_process(HISTORY, 'h')
-decls_only = [op for op in HISTORY[:-1] if op[0] == 'declare'] + [HISTORY[-1]]
+decls_only = [op for op in HISTORY[:-1] if op[0] != 'query'] + [HISTORY[-1]]
 without = fresh_process(decls_only, 'f')
 print('history:', HISTORY)
 print('last query with the full history:', with_history, ' same declarations, fresh process:', without)
